@@ -163,3 +163,22 @@ TRUSTED_BASE = ['pyvc symbolic executor', 'z3 5.1.0 / cvc5 1.0.3',
 ASSUMPTIONS = ['A10', 'config.get(key, default) is read as "the configured value of key"']
 EXPLANATION = ('Loop invariant all_txns == Concat of the included sources\' parse calls on the real cmd_run with symbolic configuration and uninterpreted callees; call-site clauses for '
                'analysis, views and renderers; load_config selection logic; bounded stand-in (labelled): real runs of `tally up` on generated budget directories.')
+
+
+def structural(tier, res):
+    """each source gets its own settings: resolve_source_format writes only into its private copy of the source entry, into the FormatSpec it has just
+    built for this source, and into the caller's warnings list - nothing shared between sources (or between runs) is written"""
+    from pyvc import frames
+    q = 'tally.config_loader.resolve_source_format'
+    fi = find_function(q)
+    res.functions[q] = fi.describe()
+    body = [st for st in fi.node.body if not (isinstance(st, ast.Expr) and isinstance(st.value, ast.Constant))]
+    first = body[0] if body else None
+    copied = isinstance(first, ast.Assign) and ast.unparse(first) == 'source = source.copy()'
+    out = [frames.Clause(q + '#works_on_a_private_copy_of_the_source_entry', copied, 'first statement is source = source.copy()' if copied else 'the source entry is not copied first', kind='auxiliary')]
+    # the FormatSpec that receives this source's delimiter / header / sign settings is built on the spot for this source
+    binds = [ast.unparse(n.value) for n in ast.walk(fi.node) if isinstance(n, ast.Assign) and any(isinstance(t, ast.Name) and t.id == 'format_spec' for t in n.targets)]
+    built = bool(binds) and all(b == 'None' or b.startswith('parse_format_string(') or b.startswith('FormatSpec(') for b in binds)
+    out.append(frames.Clause(q + '#format_spec_is_built_for_this_source', built, 'format_spec bound only from parse_format_string(...)' if built else 'format_spec bound from %s' % binds, kind='auxiliary'))
+    # `source` names the private copy from the first statement on (the alias classification is flow-insensitive, so it is allowed by name here)
+    return out + frames.check_assigns(fi, {'warnings', 'source'}, {'parse_format_string', 'FormatSpec'}, cid=q + '#writes_only_per_source_state')
